@@ -8,6 +8,7 @@ import (
 	"fmt"
 	"go/ast"
 	"go/constant"
+	"go/token"
 	"go/types"
 	"sort"
 	"strings"
@@ -112,10 +113,75 @@ func runC19(c *Ctx, r *Report) {
 				for _, e := range x.Edges {
 					walk(e, d+1)
 				}
+			case *ssa.UnOp:
+				// the name kept in a local cell (a variable captured by a closure lives in one)
+				if a, ok := x.X.(*ssa.Alloc); ok && x.Op == token.MUL {
+					for _, ref := range *a.Referrers() {
+						if st, ok := ref.(*ssa.Store); ok && st.Addr == a {
+							walk(st.Val, d+1)
+						}
+					}
+				}
 			}
 		}
 		walk(v, 0)
 		return found
+	}
+	// closureRemovesTemp: a call of a local closure whose body, on every path,
+	// calls os.Remove on the captured temp name.
+	closureRemovesTemp := func(com *ssa.CallCommon) bool {
+		mc, ok := com.Value.(*ssa.MakeClosure)
+		if !ok {
+			return false
+		}
+		cf, ok := mc.Fn.(*ssa.Function)
+		if !ok || cf.Blocks == nil {
+			return false
+		}
+		for _, b := range cf.Blocks {
+			for _, in := range b.Instrs {
+				call, ok := in.(*ssa.Call)
+				if !ok || CalleeName(&call.Call) != "os.Remove" || len(call.Call.Args) != 1 {
+					continue
+				}
+				ld, ok := call.Call.Args[0].(*ssa.UnOp)
+				if !ok || ld.Op != token.MUL {
+					continue
+				}
+				fv, ok := ld.X.(*ssa.FreeVar)
+				if !ok {
+					continue
+				}
+				for i, f := range cf.FreeVars {
+					if f != fv || i >= len(mc.Bindings) {
+						continue
+					}
+					al, ok := mc.Bindings[i].(*ssa.Alloc)
+					if !ok {
+						continue
+					}
+					isName := false
+					for _, ref := range *al.Referrers() {
+						if st, ok := ref.(*ssa.Store); ok && st.Addr == al && isTempName(st.Val) {
+							isName = true
+						}
+					}
+					if !isName {
+						continue
+					}
+					all := true
+					for _, rb := range cf.Blocks {
+						if _, isRet := rb.Instrs[len(rb.Instrs)-1].(*ssa.Return); isRet && !b.Dominates(rb) {
+							all = false
+						}
+					}
+					if all {
+						return true
+					}
+				}
+			}
+		}
+		return false
 	}
 
 	// ---- R19.1 the target is only ever replaced by rename ----------------
@@ -240,7 +306,7 @@ func runC19(c *Ctx, r *Report) {
 		switch {
 		case call != nil && call == createTemp:
 			return []Facts{f.With("temp")}
-		case name == "os.Remove" && len(com.Args) == 1 && isTempName(com.Args[0]):
+		case (name == "os.Remove" && len(com.Args) == 1 && isTempName(com.Args[0])) || closureRemovesTemp(com):
 			if f.Has("renamed") {
 				viol3["remove after rename"] = c.Rel(in.Pos()) + ": os.Remove of the temp name after the rename (the name no longer exists / may be reused)"
 			}
